@@ -45,11 +45,13 @@ def main():
     print('confirmed:', meta['confirmed'])
     if not all(meta['confirmed'].values()):
         print(o0[-800:], o1[-800:], o2[-800:])
-    # run the checks against /repo with the change applied
-    rc, o = sh('git -C /repo apply %s' % os.path.join(out, 'patch.diff'), '/verif')
+    # run the checks against the scratch worktree with the change applied (VERIF_REPO points the driver at it;
+    # /repo itself is never modified)
+    rc, o = sh('git apply %s' % os.path.join(out, 'patch.diff'), wt)
     if rc != 0:
-        print('patch does not apply to /repo', o)
+        print('patch does not apply', o)
         sys.exit(2)
+    ENV['VERIF_REPO'] = wt
     meta['checks'] = {}
     try:
         for c in checks:
@@ -61,7 +63,8 @@ def main():
             for l in lines[:6]:
                 print('   ', l[:300])
     finally:
-        sh('git -C /repo checkout -- .', '/verif')
+        sh('git checkout -- .', wt)
+        ENV.pop('VERIF_REPO', None)
     meta['needs'] = open(os.path.join(out, 'notes.md')).read()[:1500]
     json.dump(meta, open(os.path.join(out, 'meta.json'), 'w'), indent=1)
 
